@@ -1040,6 +1040,7 @@ func (c *compiler) compileSwitchStatement(v *ast.SwitchStatement, needResult boo
 	}
 
 	var enter *enterBlock
+	var enterIdx int
 	var db *binding
 	if scopeDeclared {
 		c.block = &block{
@@ -1048,6 +1049,7 @@ func (c *compiler) compileSwitchStatement(v *ast.SwitchStatement, needResult boo
 			needResult: needResult,
 		}
 		enter = &enterBlock{}
+		enterIdx = len(c.p.code)
 		c.emit(enter)
 		// create anonymous variable for the discriminant
 		bindings := c.scope.bindings
@@ -1120,7 +1122,17 @@ func (c *compiler) compileSwitchStatement(v *ast.SwitchStatement, needResult boo
 	}
 	if enter != nil {
 		c.leaveScopeBlock(enter)
-		enter.stackSize--
+		if c.scope.dynLookup || db.inStash {
+			// the discriminant binding lives in the stash (e.g. the scope contains a direct eval):
+			// move the value there on entry, the same way as for the catch parameter
+			c.p.code[enterIdx] = &enterCatchBlock{
+				names:     enter.names,
+				stashSize: enter.stashSize,
+				stackSize: enter.stackSize,
+			}
+		} else {
+			enter.stackSize--
+		}
 		c.popScope()
 	}
 	c.leaveBlock()
